@@ -23,13 +23,25 @@ def main():
     name = os.path.basename(seed.rstrip("/"))
     dst = os.path.join(V, "seeded", f"{prop}-{name}")
     os.makedirs(dst, exist_ok=True)
+    prev0 = {}
+    if os.path.exists(os.path.join(dst, "meta.json")):
+        try:
+            prev0 = json.load(open(os.path.join(dst, "meta.json"))).get("ran", {})
+        except Exception:
+            prev0 = {}
     for f in os.listdir(seed):
         if os.path.isfile(os.path.join(seed, f)):
             shutil.copy(os.path.join(seed, f), dst)
     meta = json.load(open(os.path.join(seed, "meta.json")))
+    prev = {}
+    if os.path.exists(os.path.join(dst, "meta.json")):
+        try:
+            prev = json.load(open(os.path.join(dst, "meta.json"))).get("ran", {})
+        except Exception:
+            prev = {}
     patch = os.path.join(seed, "patch.diff")
     env = dict(os.environ, CARGO_NET_OFFLINE="true", CARGO_TARGET_DIR=os.path.join(wt, "target"))
-    ran = {}
+    ran = {k: v for k, v in prev0.items() if k != "check"} if "--skip-confirm" in sys.argv else {}
     if "--skip-confirm" not in sys.argv:
         sh("git checkout -- .", cwd=wt)
         rc, o = sh(f"git apply {patch}", cwd=wt)
